@@ -95,6 +95,46 @@ def h_end2end(m):
     _same(m, "end2end", _out_terms(m, r), fp, "fingerprint differs from the specification")
 
 
+TWICE_LEN = [3]
+
+
+def _crc64_ref(data):
+    fp = EMPTY
+    for byte in data:
+        fp ^= byte
+        for _ in range(8):
+            fp = (fp >> 1) ^ (EMPTY & -(fp & 1))
+            fp &= (1 << 64) - 1
+    return fp
+
+
+def h_twice(m):
+    """the fingerprint of a text does not depend on texts fingerprinted earlier: two calls on arbitrary byte strings
+    of equal length (a result cache must be keyed by the whole text).  Symbolically the second call's result is compared
+    with the result of the same call in a private fresh copy of the module (identical terms unless the first call left
+    something behind); the replay compares with the reference CRC."""
+    k = TWICE_LEN[0]
+    d1, b1 = _data(m, k, "a")
+    d2, b2 = _data(m, k, "b")
+    if m.sym:
+        from vf.symex import rewrite
+        m.mod(SC)
+        fresh = rewrite.fresh_instance(SC).rabin_fingerprint(d2)
+        used = rewrite.fresh_instance(SC)
+        used.rabin_fingerprint(d1)
+        again = used.rabin_fingerprint(d2)
+        a, b = _out_terms(m, fresh), _out_terms(m, again)
+        ok = a is not None and b is not None and len(a) == len(b) == 8
+        m.prove("second_call", z3.And(*[x == y for x, y in zip(a, b)]) if ok else z3.BoolVal(False),
+                "the fingerprint of a text depends on a text fingerprinted before it")
+        return
+    f = m.mod(SC).rabin_fingerprint
+    f(d1)
+    r = f(d2)
+    want = _crc64_ref(bytes(d2)).to_bytes(8, "little").hex()
+    m.prove("second_call", r == want, "the fingerprint of a text depends on a text fingerprinted before it")
+
+
 class _Unknown(str):
     """a name equal to no advertised algorithm"""
 
@@ -175,6 +215,42 @@ def h_dispatch(m):
             "the result is not hashlib.new(<mapped name>, utf8(text)).hexdigest()")
 
 
+TEXT_CAP = [3]
+
+
+def h_dispatch_text(m):
+    """the bytes handed to the digest / to rabin_fingerprint are exactly the UTF-8 bytes of the text, for a text that is
+    a symbolic character-level string (every ASCII string up to TEXT_CAP characters, including whitespace and control
+    characters at either end) and each kind of algorithm"""
+    mod = m.mod(SP)
+    text = m.sstr("X", TEXT_CAP[0], small=2)
+    which = m.choice("alg", 0, 2)
+    name = ["CRC-64-AVRO", "sha256", "MD5"][which]
+    want = text.encode()
+    saved_h, saved_r = mod.hashlib, mod.rabin_fingerprint
+    rec = _Recorder()
+    rabin_calls = []
+    mod.hashlib = rec
+    mod.rabin_fingerprint = lambda d: (rabin_calls.append(d), "rabin")[1]
+    try:
+        mod.fingerprint(text, name)
+    finally:
+        mod.hashlib, mod.rabin_fingerprint = saved_h, saved_r
+    got = rabin_calls[0] if rabin_calls else (rec.calls[0][1] if rec.calls else None)
+    if got is None:
+        m.fail("dispatch.payload_is_utf8_of_text", "nothing was hashed")
+        return
+    if m.sym:
+        from vf.symex.models import SBytes
+        a, b = SBytes.lift(got), SBytes.lift(want)
+        if a.has_blob() or b.has_blob():
+            raise __import__("vf.symex.core", fromlist=["Unsupported"]).Unsupported("opaque payload")
+        same = z3.And(*[zint(x) == zint(y) for x, y in zip(a.pieces, b.pieces)]) if len(a.pieces) == len(b.pieces) else z3.BoolVal(False)
+        m.prove("dispatch.payload_is_utf8_of_text", same, "the hashed bytes are not the UTF-8 bytes of the text")
+    else:
+        m.prove("dispatch.payload_is_utf8_of_text", bytes(got) == bytes(want), "the hashed bytes are not the UTF-8 bytes of the text")
+
+
 def _same_payload(m, got, want):
     if m.sym:
         from vf.symex.models import SBytes
@@ -197,12 +273,18 @@ def run(run, tier):
     r.check(h_step, "rabin", expect=["step"], timeout_ms=600000)
     r.check(h_end2end, "rabin", expect=["end2end"], timeout_ms=600000)
     r.check(h_dispatch, "fingerprint", expect=["dispatch.unknown_raises", "dispatch.rabin", "dispatch.hashlib"])
+    r.check(h_twice, "rabin", expect=["second_call"], timeout_ms=600000)
+    TEXT_CAP[0] = 4 if tier == "thorough" else 3
+    r.check(h_dispatch_text, "fingerprint", expect=["dispatch.payload_is_utf8_of_text"])
     run.bounds += ["rabin: init + one step from an arbitrary 64-bit state and arbitrary byte + output formatting "
                    "(induction over the input length: every length); end-to-end for |data| <= %d symbolic bytes" % E2E_MAX[0],
                    "dispatch: the algorithm name is a symbolic ASCII string of at most %d characters (characters 1..127), so every "
                    "advertised name and every unknown name within that bound; the advertised set is recomputed independently "
                    "(hashlib.algorithms_guaranteed + Java spellings + CRC-64-AVRO); text is an arbitrary string (opaque, UTF-8 "
                    "encoding uninterpreted)" % NAME_CAP[0]]
+    run.bounds += ["history: two consecutive calls of rabin_fingerprint on arbitrary byte strings of length %d each" % TWICE_LEN[0]]
+    run.bounds += ["payload: text a symbolic ASCII string of at most %d characters (every character 1..127, so leading/trailing "
+                   "whitespace and control characters), algorithms CRC-64-AVRO, sha256, MD5" % TEXT_CAP[0]]
     run.outside += ["algorithm names longer than %d characters or containing non-ASCII characters / NUL" % NAME_CAP[0],
                     "digest internals (OpenSSL/hashlib C code): hashlib.new is a recording stub",
                     "shake_* variable-length digests: hexdigest() needs a length; excluded by the property"]
